@@ -76,7 +76,8 @@ theorem failing_step_ends_group (prog : Program) (pipe g : String) (pre post : L
     (hpre : StepsChain prog pipe fuel pre s s0) (hlen : pre.length < fuel)
     (hd : runStep (fuel - pre.length - 1) prog pipe d s0 = (s1, .err e h)) :
     runStepGroup (fuel + 1) prog pipe g raiseStop s = (s1, .err e h) := by
-  rw [runStepGroup_eq, hg,
+  rw [runStepGroup_eq' fuel prog pipe g raiseStop s _
+      (getPipelineSteps_of_groupSteps prog pipe g _ (by simp) hg),
     runSteps_stops_at_first_nonok prog pipe pre post d fuel s s0 s1 _ hpre hlen hd (by simp)]
 
 /-! ## groups: in order, group after group, fail fast -/
@@ -194,6 +195,27 @@ theorem failure_group_error_is_swallowed (fuel : Nat) (prog : Program) (pipe nam
     runFailureGroup (fuel + 1) prog pipe (some name) s = (s1, .ok) := by
   rw [runFailureGroup_eq fuel prog pipe name s hn, hg]
 
+/-- **A malformed failure group cannot replace the original error either.** When what stands under the
+    failure group's name is not a sequence at all and has no length (`on_failure: 42`, `1.5`, `true`, a
+    tagged scalar - a yaml slip), looking the group up raises; that is one more "the failure handler
+    failed": `run_failure_step_group` ends normally, no step having run. -/
+theorem malformed_failure_group_is_swallowed (fuel : Nat) (prog : Program) (pipe name : String) (s : St)
+    (n m : String) (hn : name ≠ "") (hg : getPipelineSteps prog pipe name = .error (n, m)) :
+    runFailureGroup (fuel + 2) prog pipe (some name) s = ((raiseNew s n m).1, .ok) := by
+  rw [runFailureGroup_eq (fuel + 1) prog pipe name s hn, runStepGroup_unsized fuel prog pipe name true s n m hg]
+  rfl
+
+/-- … hence with such a failure group the caller of `run_step_groups` still receives the original error
+    (same exception object), and nothing but the exception counter of the run has changed. -/
+theorem runGroups_err_handler_malformed (fuel : Nat) (prog : Program) (pipe : String) (g : String) (gs : List String)
+    (success : Option String) (name : String) (s s1 : St) (e : ExcV) (h : Bool) (n m : String) (hn : name ≠ "")
+    (hm : mainPhase (fuel + 2) prog pipe (g :: gs) success s = (s1, .err e h))
+    (hg : getPipelineSteps prog pipe name = .error (n, m)) :
+    runGroups (fuel + 3) prog pipe (g :: gs) success (some name) s = ((raiseNew s1 n m).1, .err e h) :=
+  runGroups_err_handler_done (fuel + 2) prog pipe g gs success (some name) s s1 _ e h hm
+    (by simp [hasFailureGroup, hn])
+    (malformed_failure_group_is_swallowed fuel prog pipe name s1 n m hn hg)
+
 /-- **The caller receives the original error**: if `run_step_groups` ends with `.err e h` then the main
     phase ended with that very exception object (same id, name, message, same `handled` flag); the final
     state is the main phase's (no handler) or the failure group's, which ran from there and ended
@@ -274,12 +296,15 @@ def failing (tag err : String) : StepDef :=
 /-- two requested groups, the second fails at its second step; the failure group fails itself at its
     second step -/
 def demoProg : Program := ⟨[{ name := "main", groups := [
-  ("a", some [probe "a1", probe "a2"]),
-  ("b", some [probe "b1", failing "b2" "E1", probe "b3"]),
-  ("c", some [probe "c1"]),
-  ("good", some [probe "ok1"]),
-  ("bad", some [probe "f1", failing "f2" "E2", probe "f3"]),
-  ("quiet", some [probe "q1", { name := some "pypyr.steps.stopstepgroup", simple := true }, probe "q2"])] }]⟩
+  ("a", .steps [probe "a1", probe "a2"]),
+  ("b", .steps [probe "b1", failing "b2" "E1", probe "b3"]),
+  ("c", .steps [probe "c1"]),
+  ("good", .steps [probe "ok1"]),
+  ("bad", .steps [probe "f1", failing "f2" "E2", probe "f3"]),
+  ("quiet", .steps [probe "q1", { name := some "pypyr.steps.stopstepgroup", simple := true }, probe "q2"]),
+  ("slip", .unsized),                                             -- `slip: 42`
+  ("word", .str "zq"),                                            -- `word: zq`
+  ("items", .steps [probe "i1", itemStep (.int 3), probe "i2"])] }]⟩  -- `- 3` between two steps
 
 /-- declaration order up to the failure; nothing of the rest of `b`, nothing of `c`, no success group;
     the failure group once, up to *its* failure; the caller gets the ORIGINAL error (id 0, `E1`), not the
@@ -303,6 +328,31 @@ example :
     let r := runRoot 50 demoProg { name := "main", groups := some ["a", "b", "c"], success := some "good",
                                     failure := some "quiet" } {}
     r.2 = .ok ∧ r.1.trace.map (·.tag) = ["a1", "a2", "b1", "b2", "q1"] := by
+  decide +kernel
+
+/-- a failure group that is not a sequence of steps (a scalar without a length; a string; a sequence with
+    an item that is no step): its own TypeError / module-not-found / AttributeError never replaces the
+    original error `E1` (exception object 0) -/
+example :
+    (runRoot 50 demoProg { name := "main", groups := some ["a", "b", "c"], success := some "good",
+                           failure := some "slip" } {}).2 = .err ⟨0, "E1", "boom b2"⟩ false ∧
+    (runRoot 50 demoProg { name := "main", groups := some ["a", "b", "c"], success := some "good",
+                           failure := some "word" } {}).2 = .err ⟨0, "E1", "boom b2"⟩ false ∧
+    (let r := runRoot 50 demoProg { name := "main", groups := some ["a", "b", "c"], success := some "good",
+                                     failure := some "items" } {}
+     r.2 = .err ⟨0, "E1", "boom b2"⟩ false ∧ r.1.trace.map (·.tag) = ["a1", "a2", "b1", "b2", "i1"]) := by
+  decide +kernel
+
+/-- the hypothesis of `malformed_failure_group_is_swallowed` / `runGroups_err_handler_malformed` on `slip` -/
+example : getPipelineSteps demoProg "main" "slip" = .error ("TypeError", "~object of this type has no len()") := by
+  rfl
+
+/-- … while the same shapes as a *requested* group are that group's own error -/
+example :
+    (runRoot 50 demoProg { name := "main", groups := some ["a", "slip", "c"] } {}).2 =
+      .err ⟨0, "TypeError", "~object of this type has no len()"⟩ false ∧
+    (runRoot 50 demoProg { name := "main", groups := some ["word"] } {}).2 =
+      .err ⟨0, "pypyr.errors.PyModuleNotFoundError", "~module not found"⟩ false := by
   decide +kernel
 
 /-- the hypotheses of `runGroups_err_handler_done` hold on the first run: main phase error, handler named,
